@@ -18,6 +18,10 @@ theorem single_writer :
     writers Extracted.effects.sites =
       [("tools/envelope.py", "main", "open-cli-output"), ("tools/envelope.py", "main", "write-cli-output")] := by decide
 
+/-- **output_named_by_user**: the file the decrypt tool writes is always one the user named: the option `-o` / `--output` is a
+    required argparse option without a default and nothing else assigns the parsed arguments. -/
+theorem output_named_by_user : outputNamedByUser Extracted.effects.cliArgs = true := by decide
+
 theorem readonly_step (fs : FS) (op : Op) (h : op.readOnly = true) : fsStep fs op = fs := by
   cases op <;> first | rfl | (simp [Op.readOnly] at h)
 
